@@ -329,6 +329,9 @@ def run(chk):
     chk.ob("C14.R3:KindFilter::matches", "a kind filter accepts exactly the events whose evt_kind equals its kind", kf_matches)
 
     common.fromvalue_rule(chk, P, "C14", ["emit::kind::Kind"])
+    # "a dropped event raises the discard counter by one": the counter cell is bumped with one atomic read-modify-write
+    from . import batcher
+    batcher.metrics_accounting(chk, P, "C14.metrics", ("emit_otlp",))
 
     def kind_display_parse():
         # Display constants and FromStr comparisons agree
